@@ -15,39 +15,71 @@ theorem fileOf_basename (p : String) : fileOf p = PyX.basename p := by
 
 theorem matches_line (p : String) (n : Int) (ev : Event) :
     (Loc.line p n).matches ev = true ↔ ev.kind = "line" ∧ fileOf ev.path = p ∧ ev.line = n := by
-  unfold Loc.matches
+  unfold Loc.matches Loc.check
   rw [locationFromEvent_eq]
-  simp [Loc.atLocation, lineAtLocation, and_assoc]
+  simp only [Loc.atLocation, lineAtLocation]
+  by_cases h1 : ev.kind = "line" <;> by_cases h2 : fileOf ev.path = p <;> by_cases h3 : ev.line = n <;>
+    simp [h1, h2, h3]
 
 theorem matches_func (p f : String) (ev : Event) :
     (Loc.func p f).matches ev = true ↔ ev.kind = "call" ∧ fileOf ev.path = p ∧ ev.func = f := by
-  unfold Loc.matches
+  unfold Loc.matches Loc.check
   rw [locationFromEvent_eq]
   simp only [Loc.atLocation, funcAtLocation]
+  by_cases h1 : ev.kind = "call" <;> by_cases h2 : fileOf ev.path = p <;> by_cases h3 : ev.func = f <;>
+    simp [h1, h2, h3]
+
+/-- a location that cannot be matched is never "here" -/
+theorem matches_nosource (p : String) (ev : Event) : (Loc.nosource p).matches ev = false := by
+  unfold Loc.matches Loc.check
+  rw [locationFromEvent_eq]
+  simp only [Loc.atLocation, funcAtLocationNoSource]
+  by_cases h : fileOf ev.path = p <;> simp [h]
+
+/-- ... and it raises exactly on the events of its file -/
+theorem check_nosource (p : String) (ev : Event) :
+    (Loc.nosource p).check ev = none ↔ fileOf ev.path = p := by
+  unfold Loc.check
+  rw [locationFromEvent_eq]
+  simp only [Loc.atLocation, funcAtLocationNoSource]
   by_cases h : fileOf ev.path = p <;> simp [h]
 
 theorem matches_kind (l : Loc) (ev : Event) (h : l.matches ev = true) : ev.kind = "line" ∨ ev.kind = "call" := by
   cases l with
   | line p n => exact Or.inl ((matches_line p n ev).mp h).1
   | func p f => exact Or.inr ((matches_func p f ev).mp h).1
+  | nosource p => rw [matches_nosource] at h; cases h
 
 /-! ### `__actions_for_location` -/
 
-theorem actionsForLocation_eq {τ α : Type} (at_ : τ → Bool) (acts : τ → List α) (cfg : List τ) :
-    actionsForLocation at_ acts cfg = (cfg.filter at_).flatMap acts := by
+theorem foldl_actions {τ α : Type} (at_ : τ → Option Bool) (acts : τ → List α)
+    (F : Option (List α) → τ → Option (List α))
+    (h1 : ∀ acc t, at_ t = none → F (some acc) t = some acc)
+    (h2 : ∀ acc t, at_ t = some true → F (some acc) t = some (acc ++ acts t))
+    (h3 : ∀ acc t, at_ t = some false → F (some acc) t = some acc) :
+    ∀ (cfg : List τ) (acc : List α),
+      cfg.foldl F (some acc) = some (acc ++ (cfg.filter (fun t => at_ t == some true)).flatMap acts) := by
+  intro cfg
+  induction cfg with
+  | nil => intro acc; simp
+  | cons t ts ih =>
+    intro acc
+    rw [List.foldl_cons]
+    cases h : at_ t with
+    | none => rw [h1 acc t h, ih]; simp [h]
+    | some b =>
+      cases b with
+      | true => rw [h2 acc t h, ih]; simp [h, List.flatMap_cons, List.append_assoc]
+      | false => rw [h3 acc t h, ih]; simp [h]
+
+/-- every trigger is checked on its own: one whose check raises (`none`) contributes nothing and stops nothing -/
+theorem actionsForLocation_eq {τ α : Type} (at_ : τ → Option Bool) (acts : τ → List α) (cfg : List τ) :
+    actionsForLocation at_ acts cfg = some ((cfg.filter (fun t => at_ t == some true)).flatMap acts) := by
   unfold actionsForLocation
-  have gen : ∀ (cfg : List τ) (acc : List α),
-      cfg.foldl (fun actions trigger => if at_ trigger then actions ++ acts trigger else actions) acc
-        = acc ++ (cfg.filter at_).flatMap acts := by
-    intro cfg
-    induction cfg with
-    | nil => intro acc; simp
-    | cons t ts ih =>
-      intro acc
-      by_cases h : at_ t = true
-      · simp [List.foldl_cons, h, ih, List.flatMap_cons, List.append_assoc]
-      · simp [List.foldl_cons, h, ih]
-  simpa using gen cfg []
+  refine (foldl_actions at_ acts _ ?_ ?_ ?_ cfg []).trans (by simp)
+  · intro acc t h; simp only [h]
+  · intro acc t h; simp only [h, if_true]
+  · intro acc t h; simp only [h]; rfl
 
 /-- the actions of the triggers at the location, in trigger order -/
 def sel (m : Loc → Bool) (ts : List Trig) : List Action := (ts.filter (fun t => m t.loc)).flatMap (fun t => t.actions)
@@ -56,7 +88,7 @@ def selTp (m : Loc → Bool) (tps : List Tp) : List Action :=
 
 theorem actionsFor_eq (cfg : List Trig) (ev : Event) :
     actionsFor cfg ev = sel (fun l => l.matches ev) cfg := by
-  simp [actionsFor, actionsForLocation_eq, sel]
+  simp [actionsFor, actionsForLocation_eq, sel, Loc.matches]
 
 theorem sel_append (m : Loc → Bool) (a b : List Trig) : sel m (a ++ b) = sel m a ++ sel m b := by
   simp [sel, List.filter_append, List.flatMap_append]
